@@ -1,6 +1,6 @@
 (* C02 - linear operators are linear: superposition for forward and adjoint, closure, action = matrix action. *)
 From MrVerif Require Import Base.Prelude Base.StarRing Base.Sums Model.OpAlg Model.ElemOps
-  Proofs.OpAlgProofs Proofs.ElemOpsProofs Proofs.AlongProofs Proofs.ElemOpsWf.
+  Proofs.OpAlgProofs Proofs.ElemOpsProofs Proofs.AlongProofs Proofs.ElemOpsWf Model.Wavelet Proofs.WaveletWf.
 
 (* wf A: forward and adjoint satisfy f(a x + b y) = a f x + b f y for all scalars of the ring (complex ones included)
    and depend only on the entries of the vector *)
@@ -32,6 +32,11 @@ Proof.
     first [apply matop_wf|apply cart_sampling_wf|apply zeropad_wf|apply perm_wf|apply diag_wf|apply sens_wf; assumption|apply findiff_wf].
 Qed.
 Print Assumptions C02_elementary.
+
+(* WaveletOp (filter-bank model of Model/Wavelet.v, 1-D, any number of levels, any filters): forward (wavedec) and adjoint (waverec) are linear *)
+Theorem C02_wavelet : forall (R : StarRing) level L n (flo fhi glo ghi : nat -> R), wf (wavedec_op level L n flo fhi glo ghi).
+Proof. exact wavedec_wf. Qed.
+Print Assumptions C02_wavelet.
 
 (* N-D: an operator applied along one axis of a row-major (pre, n, post) tensor stays linear *)
 Theorem C02_along_axis : forall (R : StarRing) pre post (A : linop R),
